@@ -364,8 +364,10 @@ End == /\ ~w.done
        /\ UNCHANGED fs0
 ReuseX == /\ w.done /\ w.call < Reuse.calls
           /\ \E t \in Reuse.targets : w' = Again(w, t) /\ fs0' = AgeFS(w.fs, w.tgt)
-Next == Entry \/ End \/ ReuseX
-Spec == Init /\ [][Next]_vars
+Next == Entry \/ End
+Spec == Init /\ [][Next]_vars                 \* one Extract call on a fresh Extractor value
+NextReuse == Entry \/ End \/ ReuseX
+SpecReuse == Init /\ [][NextReuse]_vars       \* Reuse.calls Extract calls on one Extractor value
 
 -----------------------------------------------------------------------------
 (* ---------- the property ---------- *)
